@@ -172,7 +172,9 @@ fn c21(req: &J) -> J {
                     let data = std::fs::read(&p).unwrap();
                     let newdata: Vec<u8> = match ev[1].as_str().unwrap() {
                         "trunc" => {
-                            let t = (ev[2].as_u64().unwrap() as usize).min(data.len().saturating_sub(1));
+                            // at least two bytes shorter: a file that an earlier "tail" fault made one byte
+                            // longer must not become whole again (the model treats a corrupted file as unreadable)
+                            let t = (ev[2].as_u64().unwrap() as usize).min(data.len().saturating_sub(2));
                             data[..t].to_vec()
                         }
                         "empty" => Vec::new(),
